@@ -27,7 +27,7 @@ pub fn spec() -> PropSpec {
 }
 
 fn is_echo(r: &Rec) -> bool {
-    r.2 == 0 && r.1.len() >= 3
+    r.2 == 0 && r.1.first() == Some(&ECHO_MAGIC) && r.1.len() >= 2
 }
 
 fn multiset(log: &[Rec]) -> BTreeMap<Rec, usize> {
@@ -175,13 +175,13 @@ pub fn compare_two_pass(prop: &str, case: &CkCase, real: &RealRun, rf: &RefRun, 
     let ok_expected = matches!(rf.expect, Expect::Ok { .. });
     for (r, &n) in &got {
         let want = expected.get(r).copied().unwrap_or(0);
-        if n > want && !tainted_tags.contains(&r.1[0]) {
+        if n > want && !tainted_tags.contains(&r.1[1]) {
             // a probe echo (tag + memory window) that differs from the expected one is a wrong value
-            let probe = r.1.len() > 3;
-            let same_tag_expected: Vec<&Rec> = expected.keys().filter(|e| e.1[0] == r.1[0] && e.1.len() == r.1.len()).collect();
+            let probe = r.1.len() > 4;
+            let same_tag_expected: Vec<&Rec> = expected.keys().filter(|e| e.1[1] == r.1[1] && e.1.len() == r.1.len()).collect();
             if probe && !same_tag_expected.is_empty() {
                 let mut f2 = feats.clone();
-                if let Some((p, nn)) = tag_owner(case, r.1[0]) {
+                if let Some((p, nn)) = tag_owner(case, r.1[1]) {
                     if let Role::Probe { op, .. } = &case.preds[p].nodes[nn].1 {
                         f2.push(format!("probe_op:{op}"));
                     }
@@ -197,7 +197,7 @@ pub fn compare_two_pass(prop: &str, case: &CkCase, real: &RealRun, rf: &RefRun, 
     {
         let echoes: Vec<&Rec> = real.log.iter().filter(|r| is_echo(r)).collect();
         let is_def = |r: &Rec| -> Option<bool> {
-            let (p, n) = tag_owner(case, r.1[0])?;
+            let (p, n) = tag_owner(case, r.1[1])?;
             let si = case.sols.iter().position(|s| s.pred == p && s.contract == r.0)?;
             Some(rf.deferred[si].contains(&n))
         };
@@ -223,7 +223,7 @@ pub fn compare_two_pass(prop: &str, case: &CkCase, real: &RealRun, rf: &RefRun, 
         let g = Graph::of(&case.preds[s.pred]);
         if g.invalid() {
             // only if no other solution shares this predicate's tags legitimately
-            if echoes.iter().any(|r| tag_owner(case, r.1[0]).map(|o| o.0 == s.pred).unwrap_or(false) && r.0 == s.contract) {
+            if echoes.iter().any(|r| tag_owner(case, r.1[1]).map(|o| o.0 == s.pred).unwrap_or(false) && r.0 == s.contract) {
                 fail(prop, "rejected_not_partially_evaluated", &feats, case, pat, "no node of an invalid graph runs".into(), format!("solution {si} ran nodes"), rep);
             }
             continue;
@@ -238,8 +238,8 @@ pub fn compare_two_pass(prop: &str, case: &CkCase, real: &RealRun, rf: &RefRun, 
         let pos: BTreeMap<usize, usize> = echoes
             .iter()
             .enumerate()
-            .filter(|(_, r)| r.0 == s.contract && unique(r.1[0]))
-            .filter_map(|(i, r)| tag_owner(case, r.1[0]).filter(|o| o.0 == s.pred).map(|o| (o.1, i)))
+            .filter(|(_, r)| r.0 == s.contract && unique(r.1[1]))
+            .filter_map(|(i, r)| tag_owner(case, r.1[1]).filter(|o| o.0 == s.pred).map(|o| (o.1, i)))
             .collect();
         for (&node, &at) in &pos {
             for p in g.parents(node) {
@@ -473,7 +473,7 @@ pub fn cases_for(starts: &[u16], edges: &[u16], thorough: bool, mut f: impl FnMu
 }
 
 fn run(cfg: &RunCfg, rep: &mut Report) {
-    let (nmax, emax) = cfg.tier.pick((3, 3), (4, 3));
+    let (nmax, emax) = cfg.tier.pick((3, 3), (4, 4));
     rep.bound_completed = format!("all encodings with n <= {nmax} nodes, E <= {emax} edges");
     let mut idx = 0u64;
     for n in 1..=nmax {
@@ -495,7 +495,7 @@ fn run(cfg: &RunCfg, rep: &mut Report) {
             });
         }
     }
-    rep.states = rep.distinct_nontrivial.len() as u64;
+    rep.states = rep.nontrivial_evals; // the enumeration never repeats a case
 }
 
 fn replay(case: &Value) -> Result<bool, String> {
